@@ -29,6 +29,12 @@ def gen(rng, tier):
                     continue  # a local variable cannot have a non-syntactic name
                 for depth in (0, 1, 2, 3, 10000):
                     cases.append({"role": role, "defined": list(subset), "depth": depth})
+    # the built-in encodings (Sum, Treatment) are built-ins like the transforms: a user binding of the name
+    # Sum in locals / globals / extra_namespace never replaces the one C(g, Sum) means
+    for r in range(0, 4):
+        for subset in itertools.combinations(["local", "global", "extra"], r):
+            for depth in (0, 1, 3):
+                cases.append({"role": "enc", "defined": ["builtin"] + list(subset), "depth": depth})
     # a binding to None is a binding: the first scope that defines the name wins even then
     for r in range(1, 5):
         for subset in itertools.combinations(["builtin", "local", "global", "extra"], r):
@@ -51,7 +57,7 @@ def nontrivial(c, mo, obs):
 
 def _name(c):
     return {"arg": "nm", "callee": "nm", "dotted": "mod", "bq": "my nm", "arg-none": "nm", "kwarg": "nm",
-            "nested": "nm", "dotted2": "mod", "dotted3": "mod", "kwarg-same": "nm"}[c["role"]]
+            "nested": "nm", "dotted2": "mod", "dotted3": "mod", "kwarg-same": "nm", "enc": "Sum"}[c["role"]]
 
 
 def expected(c):
@@ -61,6 +67,8 @@ def expected(c):
     order = ["data", "builtin", "local", "global", "extra"]
     if c["role"] in ("callee", "dotted", "dotted2", "dotted3"):
         order = order[1:]
+    if c["role"] == "enc":
+        return ["ok", "1.0"]
     if c["role"] == "arg-none":
         # the first defining scope binds None: sel(x, None) returns x, whose first entry is 1.0
         return ["ok", "1.0"] if any(s in c["defined"] for s in order) else ["err", "Key"]
@@ -96,6 +104,13 @@ def model_cmd(c):
         lo = [[name, obj(10.0 + j)]] if "local" in d else []
         gl = [[name, obj(20.0 + j)]] if "global" in d else []
         stack.append([lo, gl])
+    if c["role"] == "enc":
+        # model: the built-in binding is marked 1.0, every user binding 0.0
+        builtins = [[name, ["m", "1.0"]]]
+        extra = [[name, ["m", "0.0"]]] if "extra" in d else []
+        stack = [[[[name, ["m", "0.0"]]] if "local" in d else [], [[name, ["m", "0.0"]]] if "global" in d else []]
+                 for _ in range(NFRAMES)]
+        data = []
     if c["role"] == "arg-none":
         order = ["builtin", "local", "global", "extra"]
         first = next(s for s in order if s in d)
@@ -110,7 +125,7 @@ def model_cmd(c):
             gl = [[name, mark("global", 20.0 + j)]] if "global" in d else []
             stack.append([lo, gl])
         data = []
-    role = "arg" if c["role"] in ("arg", "bq", "arg-none", "kwarg", "kwarg-same", "nested") else "callee"
+    role = "arg" if c["role"] in ("arg", "bq", "arg-none", "kwarg", "kwarg-same", "nested", "enc") else "callee"
     path = {"dotted": ["mod", "nm"], "dotted2": ["mod", "sub", "nm"]}.get(c["role"], [name])
     if c["role"] == "dotted3":
         path = ["mod", "sub", "deep", "nm"]
@@ -133,6 +148,9 @@ def _run(c):
         none_first = next(sc for sc in ["builtin", "local", "global", "extra"] if sc in d)
 
     def val(v, scope=None):
+        if role == "enc":
+            from formulae.categorical import Treatment
+            return Treatment      # a user object called Sum that would give another coding
         if role == "arg-none":
             return None if scope == none_first else float(v)
         if role in ("arg", "bq", "kwarg", "kwarg-same", "nested"):
@@ -151,9 +169,11 @@ def _run(c):
     cols = {"y": np.arange(n, dtype=float), "x": np.arange(n, dtype=float) + 1}
     if "data" in d:
         cols[name] = np.full(n, VAL["data"])
+    if role == "enc":
+        cols["gq"] = ["r", "p", "q", "r", "p"]
     df = pd.DataFrame(cols)
     formula = {"arg": "y ~ I(nm)", "callee": "y ~ nm(x)", "dotted": "y ~ mod.nm(x)", "dotted2": "y ~ mod.sub.nm(x)", "dotted3": "y ~ mod.sub.deep.nm(x)", "bq": "y ~ I(`my nm`)",
-               "arg-none": "y ~ sel_(x, nm)", "kwarg": "y ~ keep_(x, w=nm)", "kwarg-same": "y ~ same_(x, nm=nm)",
+               "arg-none": "y ~ sel_(x, nm)", "kwarg": "y ~ keep_(x, w=nm)", "kwarg-same": "y ~ same_(x, nm=nm)", "enc": "y ~ 0 + C(gq, Sum)",
                "nested": "y ~ keep_(x, w=keep_(x, nm))"}[role]
     extra = {name: val(VAL["extra"], "extra")} if "extra" in d else None
     if role == "arg-none":
@@ -182,13 +202,13 @@ def _run(c):
         inner = g["caller"]
     saved = T.TRANSFORMS.get(name, None)
     had = name in T.TRANSFORMS
-    if "builtin" in d:
+    if "builtin" in d and role != "enc":
         T.TRANSFORMS[name] = val(VAL["builtin"], "builtin")
     try:
         # the outermost caller is NFRAMES - 1 levels above the immediate caller of design_matrices
         dm_ = inner()
     finally:
-        if "builtin" in d:
+        if "builtin" in d and role != "enc":
             if had:
                 T.TRANSFORMS[name] = saved
             else:
